@@ -746,6 +746,9 @@ func (tr *Trans) bindLoops() {
 		l := tr.il.Loops[i]
 		var ps []token.Pos
 		for b := range l.Body {
+			if b.Owner != l.Head.Owner {
+				continue // code inlined from closures defined elsewhere
+			}
 			for _, p := range b.PosList {
 				ps = append(ps, token.Pos(p))
 			}
@@ -796,6 +799,9 @@ func (tr *Trans) bindLoops() {
 func minPos(l *ILLoop) int {
 	m := 1 << 60
 	for b := range l.Body {
+		if b.Owner != l.Head.Owner {
+			continue
+		}
 		for _, p := range b.PosList {
 			if p < m {
 				m = p
